@@ -10,7 +10,7 @@ Inductive fop :=
 | OStat (p : path) | OLstat (p : path) | OExists (p : path) | OIsDir (p : path) | OIsFile (p : path).
 
 Inductive fres :=
-| RUnit | RErr (e : errno) | RBytes (c : bytes) | RNames (l : list bytes)
+| RUnit | RErr (e : errno) | RBytes (c : content) | RNames (l : list bytes)
 | RKind (k : kind) (m : N) | RBool (b : bool) | ROtherErr.
 
 Definition of_unit (r : fs * result errno unit) : fs * fres :=
@@ -22,7 +22,7 @@ Definition run_op (o : fop) (s : fs) : fs * fres :=
   match o with
   | OMkdir p => of_unit (mkdir p s)
   | OCreateDirAll p => of_unit (create_dir_all (S (length p)) p s)
-  | OWrite p c => of_unit (write_file p c s)
+  | OWrite p c => of_unit (write_file p (Raw c) s)
   | ORead p => match read_file p s with (s', Ok mc) => (s', RBytes (snd mc)) | (s', Err e) => (s', RErr e) end
   | OUnlink p => of_unit (unlink p s)
   | ORmdir p => of_unit (rmdir p s)
@@ -46,7 +46,7 @@ Definition fres_eqb (a b : fres) : bool :=
   | RUnit, RUnit => true
   | RErr e, RErr e' => errno_eqb e e'
   | ROtherErr, RErr e' => negb (errno_eqb e' ENOENT)   (* errno the harness does not map *)
-  | RBytes c, RBytes c' => beq c c'
+  | RBytes c, RBytes c' => content_eqb c c'
   | RNames l, RNames l' => list_eqb beq l l'
   | RKind k m, RKind k' m' => kind_eqb k k' && (match k with KLink => true | _ => m =? m' end)
   | RBool b, RBool b' => Bool.eqb b b'
